@@ -339,7 +339,13 @@ def gravity(chk, P, S):
     inval = P.fn(GI + "::invalidateForceCache")
     chk.judge(any(True for _ in inval.events(lambda e: e["k"] == "call" and INVAL.search(e.get("fn", "")) and GI + "::forceCacheIx" in _fields_in(e["x"]))),
               "MUSTCALL", "Gravity:invalidateForceCache->markCacheValueNotRealized(forceCacheIx)", inval.loc, "invalidateForceCache marks the force cache not realized")
-    ens = P.fn(GI + "::ensureForceCacheValid")
+    # the filler (today: ensureForceCacheValid) is identified by role: the GravityImpl method that obtains the writable cache and marks it valid
+    fillers = [fn for fn in P.all_fns() if fn.name.startswith(GI + "::") and any(True for _ in fn.calls(GI + "::updForceCache")) and any(True for _ in fn.calls(GI + "::markForceCacheValid"))]
+    chk.shape(len(fillers) == 1, "MUSTCALL", "Gravity:one-filler", upd.loc, "exactly one GravityImpl method fills the force cache and marks it valid: %s" % [g.name for g in fillers])
+    if len(fillers) != 1:
+        return
+    ens = fillers[0]
+    ENS = ens.name
     marks = list(ens.calls(GI + "::markForceCacheValid"))
     upds = list(ens.calls(GI + "::updForceCache"))
     chk.judge(len(marks) >= 1 and len(upds) >= 1, "MUSTCALL", "Gravity:ensure:upd+mark", ens.loc, "ensureForceCacheValid obtains the cache and marks it valid")
@@ -351,10 +357,10 @@ def gravity(chk, P, S):
     chk.judge(len(gb) == 1, "MUSTCALL", "Gravity:ensure:skip-iff-valid", ens.loc, "recomputation is skipped only under isForceCacheValid(state)")
     # other fillers / readers of the force cache
     for fn in P.all_fns():
-        if fn.name.startswith(GI + "::") and fn.name not in (GI + "::ensureForceCacheValid", GI + "::updForceCache", GI + "::getForceCache",
+        if fn.name.startswith(GI + "::") and fn.name not in (ENS, GI + "::updForceCache", GI + "::getForceCache",
                                                              GI + "::markForceCacheValid", GI + "::invalidateForceCache", GI + "::isForceCacheValid", GI + "::realizeTopology"):
             for b, i, e in fn.calls(GI + "::getForceCache"):
-                p = fn.path_exists(None, lambda q, e=e: q is e, lambda q: is_call(q, GI + "::ensureForceCacheValid"))
+                p = fn.path_exists(None, lambda q, e=e: q is e, lambda q: is_call(q, ENS))
                 chk.judge(p is None, "MUSTCALL", "Gravity:%s:ensure<read" % fn.name.split("::")[-1], "%s:%d" % (fn.file, e["line"]),
                           "the lazy force cache is read without ensureForceCacheValid on some path", p)
             for b, i, e in fn.calls(GI + "::updForceCache"):
@@ -363,7 +369,7 @@ def gravity(chk, P, S):
     for fn in P.all_fns():
         if fn.name.startswith("SimTK::Force::Gravity::"):
             for b, i, e in fn.calls(GI + "::getForceCache"):
-                p = fn.path_exists(None, lambda q, e=e: q is e, lambda q: is_call(q, GI + "::ensureForceCacheValid"))
+                p = fn.path_exists(None, lambda q, e=e: q is e, lambda q: is_call(q, ENS))
                 chk.judge(p is None, "MUSTCALL", "Gravity:%s:ensure<read" % fn.name.split("::")[-1], "%s:%d" % (fn.file, e["line"]),
                           "the lazy force cache is read without ensureForceCacheValid on some path", p)
     chk.floor("MUSTCALL", 10)
